@@ -187,8 +187,9 @@ static void case_fcw(vh::Rng& r) {
    double mu = MU[iu], md = MD[id];
    if (r.chance(0.3)) { mu *= r.U(0.9, 1.1); md *= r.U(0.9, 1.1); }
    double mHp; std::string mode;
-   const int k = r.range(5);
-   if (k == 0) { mHp = r.LU(50, 5000); mode = "generic"; }
+   const int k = r.range(6);
+   if (k == 5) { mHp = r.chance(0.5) ? mu + md : std::fabs(mu - md); mode = "at-quark-threshold(exactly, as a caller would enter it)"; }   // lambda(xu,xd,1) = 0 up to rounding: removable singularity of Phi/lambda^2
+   else if (k == 0) { mHp = r.LU(50, 5000); mode = "generic"; }
    else if (k == 1) { mHp = MW; mode = "mHp=mW-exactly"; }
    else if (k == 2) { mHp = MW * (1 + r.sign() * r.LU(1e-3, 1e-1)); mode = "mHp-near-mW(>=1e-3)"; }
    else if (k == 3) { mHp = (mu + r.sign() * md) * (1 + r.sign() * r.LU(1e-3, 0.3)); mode = "near-quark-threshold(>=1e-3)"; }
